@@ -1,8 +1,75 @@
 import RoaringModel.Driver.Core
-/-! Driver handlers: family `Lsb0` (stub — replaced when the family's model exists) -/
+import RoaringModel.Lsb0
+import RoaringModel.SpecLsb0
+import RoaringModel.Fmt
+import RoaringModel.Serde
+/-! Driver handlers: family `misc` — `from_lsb0` (C17), `stats` (C20), `serde_*` (C19), `debug` (C16) -/
 namespace Roaring.Driver
 open Roaring
 
-def opsLsb0 : Handler := fun _ _ => none
+def showStats (s : Stats) (ssz : Nat) : String :=
+  s!"nc={s.nContainers} na={s.nArray} nr={s.nRun} nb={s.nBitset} va={s.valuesArray} vr={s.valuesRun} vb={s.valuesBitset} card={s.cardinality} min={showOpt s.minValue} max={showOpt s.maxValue} ssz={ssz}"
+
+def showStatsSpec (q : Spec.StatsSpec) : String :=
+  s!"nc={q.nContainers} na={q.nArray} nr=0 nb={q.nBitset} va={q.valuesArray} vr=0 vb={q.valuesBitset} card={q.cardinality} min={showOpt q.minValue} max={showOpt q.maxValue} ssz={q.serializedSize}"
+
+def showDebug (s : String) : String :=
+  let form := if (s.splitOn " values between ").length > 1 then "summary" else "list"
+  s!"ok n={s.utf8ByteSize} h={hex64 (fnv (s.toUTF8.toList.map (·.toNat)))} f={form}"
+
+def parseSlot64 (pfx : Char) (t : String) : Option Nat := (parseSlot pfx t).filter (· < 64)
+
+def opsLsb0 : Handler := fun st toks =>
+  let b? (t : String) := (parseSlot 'b' t).bind fun i => (st.getB i).map fun s => (i, s)
+  match toks with
+  | ["from_lsb0", d, off, hx] => do
+    let i ← parseSlot64 'b' d; let off ← parseU32 off; let bytes ← parseHex hx
+    -- SPEC: inside the documented domain the call succeeds with exactly the set bits; outside it
+    -- (slice extends past 2^32) the property allows the panic and the code's answer is taken
+    let fits := Spec.lsb0Fits off bytes
+    match Lsb0.fromLsb0 st.dbg off bytes with
+    | some m => pure (st.setB i ⟨m, Spec.bitsOfBytes off bytes⟩, "ok")
+    | none => pure (st, specMark "panic" (if fits then "ok" else "panic"))
+  | ["stats", d] => do
+    let (_, sl) ← b? d
+    pure (st, specMark (showStats (Bitmap.statistics sl.m) (Bitmap.serializedSize sl.m))
+                       (showStatsSpec (Spec.stats sl.s)))
+  | ["debug", d] => do
+    let (_, sl) ← b? d
+    let spec := showDebug (Spec.debugString sl.s)
+    match Bitmap.debugFmt sl.m with
+    | some s => pure (st, specMark (showDebug s) spec)
+    | none => pure (st, specMark "panic" spec)
+  | ["serde_events", d] => do
+    let (_, sl) ← b? d
+    let evs := Serde.serEvents sl.m
+    let bs := evs.flatMap fun e => match e with
+      | .bytes b => b
+      | .other _ => []
+    -- `same`: the bytes handed over are those of `serialize_into` (true by definition in the model)
+    pure (st, s!"calls={",".intercalate (evs.map Serde.Event.method)} n={bs.length} sh={hex64 (fnv bs)} same={showBool (bs == Bitmap.serialize sl.m)}")
+  | ["serde_visit", kind, d, src] => do
+    let i ← parseSlot64 'b' d
+    -- the byte string: literal `hex:…`, or `ser:bN` = the serialisation of slot `bN`
+    let (bytes, orig) ← (if src.startsWith "ser:" then
+        (b? (src.drop 4).toString).map fun (_, sl) => (Bitmap.serialize sl.m, some sl.s)
+      else (parseHex src).map fun bs => (bs, none) : Option (List Nat × Option (List Nat)))
+    let inp ← (match kind with
+      | "bytes" => some (Serde.Input.bytes bytes)
+      | "borrowed" => some (Serde.Input.borrowedBytes bytes)
+      | "buf" => some (Serde.Input.byteBuf bytes)
+      | "seq" => some (Serde.Input.seq bytes)
+      | _ => none : Option Serde.Input)
+    -- SPEC: the serialisation of a value decodes to an equal value (`ok`, same set)
+    match Serde.visit st.dbg inp, orig with
+    | .ok m, some s => pure (st.setB i ⟨m, s⟩, "ok")
+    | .ok m, none => pure (st.setB i ⟨m, Bitmap.elems m⟩, "ok")
+    | .error _, some _ => pure (st, specMark "err" "ok")
+    | .error _, none => pure (st, "err")
+  | ["serde_rt", fmt, d] => do
+    -- real format round trips happen on the Rust side only; the property says: succeeds, equal value
+    let (_, _) ← b? d
+    if fmt = "postcard" ∨ fmt = "json" then pure (st, "ok eq=true") else none
+  | _ => none
 
 end Roaring.Driver
